@@ -119,3 +119,14 @@ package message
 //@   loop 0 invariant 0 <= sizeNormal && sizeNormal <= sizeExtended && sizeExtended <= i*2040
 //@   loop 0 invariant forall j int :: 0 <= j && j < i ==> specFieldAccepted(TT, j)
 //@   loop 0 modifies rw.fields[:]
+
+// The comparator handed to sort.Slice (the second function literal of Initialize) IS the MAVLink ordering rule, for
+// every pair of descriptors of a struct whose extension fields are declared after its base fields.
+//@ func (*ReadWriter).Initialize$2 captures (rw *ReadWriter) returns (r)
+//@   requires rw != nil && 0 <= i && i < len(rw.fields) && 0 <= j && j < len(rw.fields) && rw.fields[i] != nil && rw.fields[j] != nil
+//@   requires specExtensionsDeclaredLast(rw.fields[i], rw.fields[j]) && specExtensionsDeclaredLast(rw.fields[j], rw.fields[i])
+//@   requires specPrimitiveSize(rw.fields[i].ftype) > 0 && specPrimitiveSize(rw.fields[j].ftype) > 0
+//@   ensures  [comparator-is-the-mavlink-order] r == specGoesBefore(rw.fields[i], rw.fields[j])
+//@   canary   r
+//@   canary   !r
+//@   modifies nothing
